@@ -2108,6 +2108,95 @@ class Dispatch:
         return self.expr(s, env)
 
 
+WRAP_ATOMS = [(r"haystack\.len\(\)", "hlen"), (r"needle\.len\(\)", "nlen"), (r"needle\.is_empty\(\)", "(nlen == 0)"),
+              (r"needle\.first\(\)\.is_whitespace\(\)", "nFirstWs"), (r"needle\.last\(\)\.is_whitespace\(\)", "nLastWs"),
+              (r"haystack\.leading_white_space\(\)", "leadWs"), (r"haystack\.trailing_white_space\(\)", "trailWs")]
+
+
+def wrap_expr(fname, e, env):
+    """arithmetic / comparison over the lengths, the two whitespace tests of the needle, the two whitespace counts of the haystack and the
+    local variables (substituted by their current value)"""
+    e = re.sub(r"\s+", " ", e.strip())
+    for pat, rep in WRAP_ATOMS:
+        e = re.sub(pat, rep, e)
+    e = re.sub(r"\b[a-z_]+\b", lambda m: env.get(m.group(0), m.group(0)), e)
+    for tok in re.findall(r"[A-Za-z_]+", e):
+        if tok not in ("hlen", "nlen", "nFirstWs", "nLastWs", "leadWs", "trailWs", "if", "then", "else"):
+            raise TranslateError(f"{fname}: expression {e!r}")
+    if not re.fullmatch(r"[A-Za-z_0-9 ()+\-<=!]*", e):
+        raise TranslateError(f"{fname}: expression {e!r}")
+    return e
+
+
+def wrap_call(fname, e, env):
+    m = re.fullmatch(r"self\s*\.\s*exact_match_impl::<(true|false)>\s*\((.*)\)", e.strip(), re.S)
+    if not m:
+        raise TranslateError(f"{fname}: call {e.strip()[:60]!r}")
+    args = _split_args(m.group(2))
+    if len(args) != 5 or args[0] != "haystack" or args[1] != "needle" or args[4] not in ("indices", "&mut Vec::new()"):
+        raise TranslateError(f"{fname}: arguments of exact_match_impl")
+    if (m.group(1) == "true") != (args[4] == "indices"):
+        raise TranslateError(f"{fname}: INDICES does not agree with the index vector passed")
+    return f"(c.exact_match_impl ({wrap_expr(fname, args[2], env)}) ({wrap_expr(fname, args[3], env)}))"
+
+
+def wrap_block(fname, s, env):
+    s = s.strip()
+    if not s:
+        raise TranslateError(f"{fname}: a block falls through")
+    m = re.match(r"let mut ([a-z_]+) = 0;", s)
+    if m:
+        env = dict(env)
+        env[m.group(1)] = "0"
+        return wrap_block(fname, s[m.end():], env)
+    m = re.match(r"if ([^{]+?) \{", s)
+    if m:
+        j = _close(s, m.end() - 1)
+        inner, rest = s[m.end():j].strip(), s[j + 1:].strip()
+        c = wrap_expr(fname, m.group(1), env)
+        am = re.fullmatch(r"([a-z_]+) = ([^;{}]+?);?", inner)
+        if am:                                       # conditional assignment to a local
+            if am.group(1) not in env:
+                raise TranslateError(f"{fname}: assignment to {am.group(1)!r}")
+            env = dict(env)
+            env[am.group(1)] = f"(if {c} then {wrap_expr(fname, am.group(2), env)} else {env[am.group(1)]})"
+            return wrap_block(fname, rest, env)
+        em = re.match(r"else \{", rest)
+        if em:                                       # if .. else as the tail expression
+            k = _close(rest, em.end() - 1)
+            if rest[k + 1:].strip():
+                raise TranslateError(f"{fname}: code after if/else")
+            return f"(if {c} then {wrap_block(fname, inner, env)} else {wrap_block(fname, rest[em.end():k], env)})"
+        if not re.fullmatch(r"return\b[^;]*;", inner, re.S):
+            raise TranslateError(f"{fname}: an `if` block is neither an assignment nor a `return`")
+        return f"(if {c} then {wrap_block(fname, inner, env)} else {wrap_block(fname, rest, env)})"
+    m = re.fullmatch(r"(?:return\b)?\s*(None|Some\(0\))\s*;?", s)
+    if m:
+        return "c.none" if m.group(1) == "None" else "(c.some c.zero)"
+    if ";" in s:
+        raise TranslateError(f"{fname}: statement {s[:60]!r}")
+    return wrap_call(fname, s, env)
+
+
+def gen_wrappers(bodies):
+    """exact_match / prefix_match / postfix_match and their `_indices` twins: the empty-needle guard, the whitespace trimming and the
+    window handed to exact_match_impl"""
+    out = []
+    for base in ["exact", "prefix", "postfix"]:
+        terms = []
+        for fname in [base + "_match", base + "_indices"]:
+            if len(bodies.get(fname, [])) != 1:
+                raise TranslateError(f"{fname} not found exactly once in matcher/src/lib.rs")
+            terms.append(wrap_block(fname, bodies[fname][0].strip()[1:-1], {}))
+        if terms[0] != terms[1]:
+            raise TranslateError(f"{base}_match and {base}_indices differ in more than the index vector")
+        out.append(f"/-- `Matcher::{base}_match` and `Matcher::{base}_indices` (both bodies translate to this term) -/")
+        out.append(f"def {base}_match {{S R : Type}} (c : Calls S R) (hlen nlen : Nat) (nFirstWs nLastWs : Bool) (leadWs trailWs : Nat) : R :=")
+        out.append("  " + terms[0])
+        out.append("")
+    return out
+
+
 def gen_dispatch():
     """matcher/src/lib.rs: fuzzy_matcher_impl, fuzzy_match_greedy_impl, substring_match_impl — the length guards, the representation
     match, the one-character case, the prefilter call and its `?`, the contiguous shortcut and the window arguments of every callee
@@ -2149,6 +2238,7 @@ def gen_dispatch():
         out.append(f"def {fname} {{S R : Type}} (c : Calls S R) (hlen nlen : Nat) (hAscii nAscii : Bool) : R :=")
         out.append("  " + term)
         out.append("")
+    out += gen_wrappers(bodies)
     out.append("end NucleoVerif.Gen.Dispatch")
     return "\n".join(out) + "\n"
 
